@@ -13,6 +13,7 @@ ID = "C10"
 LEVEL = "exploration"
 QUICK_SHARDS = 4
 MIN_NONTRIVIAL = 50
+FUZZ_RUNS = 240000     # thorough tier: atheris executions (all children)
 RULE = (
     "Source recipe (all classes, attributes on atoms and bonds, descriptors, "
     "changes) x derivation in {copy(), copy-constructor (same class and "
@@ -217,5 +218,5 @@ def run(ctx):
                                 f"deriv:{case['deriv'][0]}",
                                 f"side:{case['side']}", f"edit:{op[0]}"])
 
-    ctx.hyp("c10", S.tapes(1500).map(gen), check, ctx.scale(12000, 400000),
+    ctx.hyp("c10", S.mapped(1500, gen), check, ctx.scale(12000, 400000),
             shrinker=shrink)
